@@ -6,7 +6,7 @@ CXX     ?= g++
 BASEFLAGS = -std=c++17 -g0 -Wall -Wno-unused-variable -Wno-unused-but-set-variable \
             -I$(REPO)/include -Iharness -MMD -MP -DHEP_MC_VERIF
 OPT     ?= -O1
-B       = build
+B       = $(if $(VERIF_BUILD),$(VERIF_BUILD),build)
 
 CHECKS  = c01 c02 c03 c04 c05 c06 c07 c08 c09 c10 c11 c12 c13 c14 c15 c16 c17 c18 c19 c20
 
